@@ -22,8 +22,9 @@ type corpus struct {
 	render []string
 	richQ  []string // renderable queries with wildcards, regexps, ranges, lists, boosts: the shapes renderers treat specially
 	docs   []string
-	bigQ   []string // long queries (lists, chains, nesting past typical scratch capacities)
-	bigDoc []string // long JSON documents
+	fams   [][]string // renderable queries grouped by the construct they exercise (wildcards, regexps, ranges, lists, ...)
+	bigQ   []string   // long queries (lists, chains, nesting past typical scratch capacities)
+	bigDoc []string   // long JSON documents
 }
 
 func loadCorpus() *corpus {
@@ -58,6 +59,29 @@ func loadCorpus() *corpus {
 			c.bigDoc = append(c.bigDoc, ln)
 		}
 	}
+	// feature families: several DIFFERENT inputs that all go through the same
+	// operator-specific code path (a per-operator memo or scratch is only visible then)
+	markers := []func(string) bool{
+		func(q string) bool { return strings.ContainsAny(q, "*?") && !strings.ContainsAny(q, "[{/") },
+		func(q string) bool { return strings.Contains(q, "/") },
+		func(q string) bool { return strings.ContainsAny(q, "[{") },
+		func(q string) bool { return strings.Contains(q, ":(") },
+		func(q string) bool { return strings.Contains(q, ":>") || strings.Contains(q, ":<") },
+		func(q string) bool { return strings.ContainsAny(q, "~^") },
+		func(q string) bool { return strings.ContainsAny(q, "\"'") },
+		func(q string) bool { return !strings.Contains(q, ":") },
+	}
+	for _, m := range markers {
+		var fam []string
+		for _, q := range c.render {
+			if len(q) <= 80 && m(q) {
+				fam = append(fam, q)
+			}
+		}
+		if len(fam) >= 3 {
+			c.fams = append(c.fams, fam)
+		}
+	}
 	if len(c.all) == 0 || len(c.render) == 0 || len(c.docs) == 0 {
 		panic("empty corpus")
 	}
@@ -86,6 +110,14 @@ func (c *corpus) rich(r *zsimrt.Rand) string {
 		return c.renderable(r)
 	}
 	return c.richQ[r.Intn(len(c.richQ))]
+}
+
+// family returns one feature family (nil if none could be built).
+func (c *corpus) family(r *zsimrt.Rand) []string {
+	if len(c.fams) == 0 {
+		return nil
+	}
+	return c.fams[r.Intn(len(c.fams))]
 }
 
 func (c *corpus) jsonDoc(r *zsimrt.Rand) string {
